@@ -368,6 +368,8 @@ def rules(rep, facts):
         rep.relabel('C13/R3', 'C07/R14', 'what the serializers write for enum variants is read back in every spelling: ')
     from .rules_serdeflow import r_value_serializers
     r_value_serializers(rep, facts, 'C07/R17', judge='oracle')
+    from .rules_serdeflow import r_round_trip
+    r_round_trip(rep, facts, 'C07/R18')
     if 'toml' in facts.crates:
         from .rules_c13 import r1_wrappers, r10_variant_collectors
         r1_wrappers(rep, facts)
